@@ -834,7 +834,8 @@ def parseFObs (subs : List String) (toks : List String) (impl : String) : Mon.FO
   let itoks := words impl
   { fan := match toks with
       | "fanout" :: rest => match rest.span (· != "|") with
-        | ([n, r, x, hb, serial], _) => some ("F." ++ ".".intercalate [n, r, x, hb, serial], subs)
+        -- (judged only when the server's call took place and returned: `w=ok`; `nocall` = the issuing handler does not exist)
+        | ([n, r, x, hb, serial], _) => if itoks.contains "w=ok" then some ("F." ++ ".".intercalate [n, r, x, hb, serial], subs) else none
         | _ => none
       | _ => none,
     appends := itoks.filterMap fun t =>
